@@ -122,6 +122,9 @@ def stepLine (d : DSt) (ws : List String) : DSt × String :=
     match i.toNat?, bool? k with
     | some i, some k => doOp d (.expire i k) []
     | _, _ => (d, "bad-op")
+  | ["ustep", _i] =>
+    -- a call of the client on a node outside the model's world (trace events, exit summaries): nothing changes
+    (d, showState d)
   | ["reconnect", i] =>
     match i.toNat? with
     | some i => doOp d (.reconnect i) []
